@@ -188,6 +188,17 @@ def r3_rel(ck, F, R="C02-R3"):
             st_sites = [s for s, s_ in pv.sites() if s.i is not None and s_["s"] == "assign" and s_["pl"]["p"] and isinstance(s_["pl"]["p"][-1], dict) and s_["pl"]["p"][-1].get("name") == "current_offset"]
             okb = any(pv.dominates(f_t, s.bb) for s in st_sites) and not any(pv.dominates(t_t, s.bb) and pv.in_loop(s.bb) for s in st_sites)
         ck.ob(R, "prev-scan-arm-actions", okb, "different key => remember this offset and go on; the current key => leave the loop with the offset before it", pv, c["site"])
+    # --- no answer without a probe: every success exit of the three ReaderCursor seeks is dominated by the seek it
+    # delegates to (an early `return Ok(None)` for a special-cased probe — the empty key — answers without looking,
+    # seeded C04-23 / C02-22)
+    for nm, callee in ((A("rc_prefix") + "move_on_key_lower_than_or_equal_to", A("rc_prefix") + "move_on_key_greater_than_or_equal_to"),
+                       (A("rc_prefix") + "move_on_key_equal_to", A("rc_prefix") + "move_on_key_greater_than_or_equal_to"),
+                       (A("rc_prefix") + "move_on_key_greater_than_or_equal_to", A("ibc_prefix") + "move_on_key_greater_than_or_equal_to")):
+        fb = F.body(nm)
+        pr = calls(fb, callee)
+        oks = ok_return_sites(fb)
+        okp = len(pr) >= 1 and bool(oks) and all(any(fb.dominates(p_[0], o_[0]) for p_ in pr) for o_ in oks)
+        ck.ob(R, f"probe-before-answer/{nm.split('::')[-1]}", okp, f"every success exit of {nm.split('::')[-1]} follows its probe ({callee.split('::')[-2]}::{callee.split('::')[-1]})", fb)
     # exact table hit => that slot; miss => previous slot, none => None
     # --- BlockCursor >=-seek
     ge = F.body(A("bc_ge"))
@@ -204,7 +215,8 @@ def r3_rel(ck, F, R="C02-R3"):
         op, st, pr, okp = _canon(cm, ["target_key"])
         last_calls = calls(rle, A("rc_prefix") + "move_on_last")
         from_last = len(last_calls) == 1 and (bdy is not rle or any(e.k == "call" and e.x.get("site") == last_calls[0][0] for e in st.walk()))
-        ck.ob(R, "last-entry-filter", op == "<=" and okp and from_last, f"no ceiling: the last entry is kept iff `stored {op} probe`", bdy, cm["site"])
+        key_part = st.strip().k == "field" and st.strip().x.get("idx") == 0      # the key of the (key, value) entry, not its value
+        ck.ob(R, "last-entry-filter", op == "<=" and okp and from_last and key_part, f"no ceiling: the last entry is kept iff `stored key {op} probe`" + ("" if key_part else f" — compared: {st.show()[:60]}"), bdy, cm["site"])
     # --- ReaderCursor ==-seek
     req = F.body(A("rc_prefix") + "move_on_key_equal_to")
     cs = calls(req, A("rc_prefix") + "move_on_key_greater_than_or_equal_to")
@@ -313,6 +325,13 @@ def r4_offsets(ck, F, R="C02-R4"):
                 inc.append(site)
     rets = [Site(r, None) for r in b.return_blocks()]
     ck.ob(R, "counter-increment", len(inc) == 1 and all(b.dominates(inc[0], r) for r in rets), "index_key_counter += 1 once per inserted entry on every path", b)
+    # ... and *after* the interval test of the same insert: the test reads how many entries precede this one since the
+    # last slot (incremented first, slots land on entries interval-1, 2*interval-1, .. and interval 1 records offset 0
+    # twice — seeded C09-23)
+    tests = [site for site, st in b.sites() if site.i is not None and st["s"] == "assign" and st["rv"]["rv"] == "bin" and st["rv"]["op"] in ("Eq", "Ne", "Ge", "Gt", "Le", "Lt")
+             and any(is_self_field(x, "index_key_counter") for x in b._expr_of_def((site, "assign", st["rv"])).a)]
+    ck.ob(R, "counter-incremented-after-test", len(inc) == 1 and len(tests) >= 1 and all(b.dominates(t_, inc[0]) and t_.bb not in b.reachable_from(inc[0].bb) for t_ in tests),
+          "the interval test precedes the increment (it counts the entries before this one)", b)
     # first slot is the constant 0 (builder and reset)
     bld = F.body(A("bw_builder_build"))
     e = agg_field_expr(bld, *[(s, rv) for bb, s, rv in aggregates(F, A("bw_struct")) if bb.path == bld.path][0], "index_offsets")
